@@ -46,8 +46,8 @@ ObsClause(ev, s) ==
     ELSE IF \E i \in 1..Len(s) : ev.nxt[i] # NextOf(s, i) \/ ev.prv[i] # PrevOf(s, i) THEN "nextprev"
     ELSE IF \E i \in 1..Len(s) : <<ev.pos[i][1], ev.pos[i][2]>> # PosOf(szs, i) THEN "position"
     ELSE IF ev.op = "assign" /\ Len(ptxt) = Len(s) /\
-            (\E i \in 1..Len(s) : s[i] # ev.r /\ ev.txt[i] # ptxt[i]) THEN "other-token-text"
-    ELSE IF ev.op = "assign" /\ (\E i \in 1..Len(s) : s[i] = ev.r /\ ev.txt[i] # ev.newtxt) THEN "assigned-text"
+            (\E i \in 1..Len(s) : i # ev.apos /\ ev.txt[i] # ptxt[i]) THEN "other-token-text"
+    ELSE IF ev.op = "assign" /\ ev.apos \in 1..Len(s) /\ ev.txt[ev.apos] # ev.newtxt THEN "assigned-text"
     ELSE "ok"
 
 \* The token right after the replaced range: whether re-inserting it is refused is not
@@ -66,6 +66,12 @@ Expected(ev) ==
                  THEN [refuse |-> TRUE, s |-> seq, dom |-> FALSE]
             ELSE IF \E k \in 1..Len(ev.toks) : In(ev.toks[k]) THEN [refuse |-> TRUE, s |-> seq, dom |-> TRUE]
             ELSE [refuse |-> FALSE, s |-> InsertAfterResult(ev.toks, ev.r), dom |-> TRUE]
+      [] ev.op = "assign" ->
+            \* the assigned token itself may be replaced by ONE new token at its place (value-level properties);
+            \* every other position must hold the same token object
+            [refuse |-> FALSE, dom |-> TRUE,
+             s |-> IF Len(ev.row) = Len(seq) /\ ev.apos \in 1..Len(seq) /\ ev.row[ev.apos] \notin SeqSet(seq)
+                   THEN [seq EXCEPT ![ev.apos] = ev.row[ev.apos]] ELSE seq]
       [] OTHER -> [refuse |-> FALSE, s |-> seq, dom |-> TRUE]
 
 Step ==
